@@ -161,11 +161,11 @@ def run(ctx):
                                  {"kind": "mapeach", "dag": dag, "undag": undag, **tag})
         # cross-sector maps
         if 1 <= norb <= 9 and nele >= 1:
-            for dn in (1, 2):
+            for dn in ((1, 2, 3, 4) if norb <= 7 else (1, 2)):
                 if nele - dn < 0:
                     continue
                 params = [[nele, nele, norb], [nele - dn, nele - dn, norb]]   # (n, sz=n): all alpha
-                gset = fgs.FciGraphSet(2, 2, params)
+                gset = fgs.FciGraphSet(4, 4, params)
                 big_g = gset._dataset[(nele, 0)]
                 small_g = gset._dataset[(nele - dn, 0)]
                 bidx = {int(s): i for i, s in enumerate(big_g.string_alpha_all())}
@@ -190,6 +190,30 @@ def run(ctx):
                 if sorted(down.keys()) != sorted(mkeys) or sorted(up.keys()) != sorted(mkeys):
                     ctx.disagree("maps:cross-sector-keys", f"cross-sector key set dn={dn} at {tag}",
                                  {"kind": "mapset", "dn": dn, **tag})
+
+
+    # ---- operator-string maps at the top of the orbital range with several electrons above / below ----
+    # (parities count occupied orbitals above the one acted on: orbital 63 and 62, two and three electrons)
+    for norb, nele in ([(64, 2), (63, 2)] if ctx.tier == "quick" else [(64, 2), (63, 2), (64, 3), (33, 3), (32, 2)]):
+        graph = fg.FciGraph(nele, 0, norb)
+        tag = {"norb": norb, "nele": nele}
+        hi = norb - 1
+        lists = [([hi], [5]), ([5], [hi]), ([hi], [hi]), ([hi, 3], [7, 2]), ([0], [hi - 1]), ([hi - 1, hi], [0, 1]),
+                 ([31], [32]), ([32], [31])]
+        for _ in range(6):
+            k = rng.randint(1, 2)
+            lists.append((rng.sample(range(norb), k), rng.sample(range(norb), k)))
+        for dag, undag in lists:
+            res = numpy.zeros((graph.lena(), 3), dtype=numpy.uint64)
+            cnt = graph.make_mapping_each(res, True, dag, undag)
+            impl = [tuple(int(x) for x in r) for r in res[:cnt]]
+            req = f"{norb} {nele} {len(dag)} {' '.join(map(str, dag))} {len(undag)} {' '.join(map(str, undag))}"
+            model = d.triples(("mapeach_c " if ctx.path == "C" else "mapeach_py ") + req)
+            ctx.case(("mapeach-hi", norb, nele, tuple(dag), tuple(undag)) if any(m[2] for m in model) else None)
+            ctx.count("opstring maps (norb 63/64)")
+            if impl != model:
+                ctx.disagree("maps:make_mapping_each", f"make_mapping_each dag={dag} undag={undag} at {tag}",
+                             {"kind": "mapeach", "dag": dag, "undag": undag, **tag})
 
 
 def replay(ctx, rep):
